@@ -410,6 +410,9 @@ func (g *FnGen) run() {
 	env := g.entryEnv()
 	for _, c := range g.fc.Requires {
 		g.assume(env.trBool(c.E))
+		// a precondition is an obligation at every call site that is itself under contract (pre@call/...); for callers
+		// outside the kernel it is an assumption about them, and is listed as such
+		g.note("precondition assumed at entry (checked only at call sites under contract): " + c.Src)
 	}
 	for _, c := range g.fc.Axioms {
 		g.assume(env.trBool(c.E))
